@@ -1,0 +1,10 @@
+//go:build !verif
+
+package spec
+
+// No-op counterparts of the verification hooks (see verif_hooks.go, build tag verif).
+
+func verifEv(string, ...string)              {}
+func verifCirc(string, bool, []string)       {}
+func verifLoad(string, bool)                 {}
+func verifGate(string, *simpleCache, string) {}
